@@ -100,6 +100,9 @@ impl Ctx {
     pub fn count(&mut self, key: &str) {
         *self.dist.entry(key.to_string()).or_insert(0) += 1;
     }
+    pub fn count_by(&mut self, key: &str, n: usize) {
+        *self.dist.entry(key.to_string()).or_insert(0) += n as u64;
+    }
     /// The property itself, evaluated on the real crate, failed for this input.
     pub fn oracle_fail(&mut self, what: &str, input: serde_json::Value) {
         self.oracle_fail_count += 1;
@@ -255,6 +258,7 @@ fn main() {
     if let Some(mut c) = child {
         let _ = c.wait();
     }
+    if matches!(prop.as_str(), "C01" | "C02" | "C07" | "C08" | "C09") { c01::report_flags(&mut ctx); }
     let report = serde_json::json!({
         "property": prop,
         "tier": tier,
